@@ -29,7 +29,8 @@ RULE = ('one case = one call of a derivative routine for one (function, order/co
 ASSUMPTIONS = ['the value routines are what is being differentiated (their own correctness is C07/C10)',
                'Chebyshev interpolation at >= degree+3 nodes is exact for polynomials; trigonometric interpolation at '
                '> 2*degree nodes is exact for trigonometric polynomials; complex step is exact to round-off for analytic f',
-               'tolerance 1e-8*sup|reference derivative on the interval| + 1e-10*sup|value|*(2/width)^k; '
+               'tolerance 1e-8*sup|reference derivative on the interval| + 1e-10*sup|value|*(2/width)^k (1e-7 for Clenshaw '
+               'derivative rows of order >= 3, 2e-4 for float32 input); '
                'oracle self-disagreement must be 100x below that or the case is excluded and counted',
                'an enclosing evaluator is not blamed for a mismatch on a call during which an inner contract fired']
 REQUIRED = ['der1d', 'der_seq', 'zernike_nm_der.dr', 'zernike_nm_der.dt', 'zernike_nm_der_seq',
@@ -249,7 +250,8 @@ def post_jacobi_sum_clenshaw_der(token, args, kwargs, result):
         key = 'C09/jacobi_sum_clenshaw_der/' + rowclass(jj, j, n)
         judge('jacobi_sum_clenshaw_der.rows', got, ref, unc, key,
               f'jacobi_sum_clenshaw_der(j={j}): alphas[{jj}][0] is not the derivative of order {jj} of sum s_n P_n', desc,
-              refsup=refsup, fsup=fsup, dscale=(2 / (hi - lo)) ** jj, inner=True, row=jj)
+              refsup=refsup, fsup=fsup, dscale=(2 / (hi - lo)) ** jj, inner=True, row=jj,
+              rtol=TOL if jj <= 2 else 10 * TOL)     # rounding of high-order recurrences grows like degree^(2 jj)
 
 
 def post_clenshaw_qbfs_der(token, args, kwargs, result):
@@ -279,7 +281,8 @@ def post_clenshaw_qbfs_der(token, args, kwargs, result):
         key = 'C09/clenshaw_qbfs_der/' + rowclass(jj, j, n)
         judge('clenshaw_qbfs_der.rows', got, ref, unc, key,
               f'clenshaw_qbfs_der(j={j}): 2(alphas[{jj}][0]+alphas[{jj}][1]) is not d^{jj}/dx^{jj} of sum c_n Q_n(x)', desc,
-              refsup=refsup, fsup=fsup, dscale=(2 / (hi - lo)) ** jj, inner=True, row=jj)
+              refsup=refsup, fsup=fsup, dscale=(2 / (hi - lo)) ** jj, inner=True, row=jj,
+              rtol=TOL if jj <= 2 else 10 * TOL)     # rounding of high-order recurrences grows like degree^(2 jj)
 
 
 def post_clenshaw_q2d_der(token, args, kwargs, result):
@@ -312,7 +315,8 @@ def post_clenshaw_q2d_der(token, args, kwargs, result):
         key = 'C09/clenshaw_q2d_der/' + rowclass(jj, j, n)
         judge('clenshaw_q2d_der.rows', got, ref, unc, key,
               f'clenshaw_q2d_der(j={j}): the alpha sums of row {jj} are not d^{jj}/dx^{jj} of sum c_n Q_n^m(x)', desc,
-              refsup=refsup, fsup=fsup, dscale=(2 / (hi - lo)) ** jj, inner=True, row=jj)
+              refsup=refsup, fsup=fsup, dscale=(2 / (hi - lo)) ** jj, inner=True, row=jj,
+              rtol=TOL if jj <= 2 else 10 * TOL)     # rounding of high-order recurrences grows like degree^(2 jj)
 
 
 def conic_domain_ok(c, k, A):
@@ -400,8 +404,9 @@ def xsets(rng, lo, hi, ends=True, f32=False):
 
 def families():
     from prysm import polynomials as p
-    jac_params = [(-0.5, -0.5), (0.5, 0.5), (-0.5, 0.5), (0.5, -0.5), (0, 0), (0, 4), (0.3, -0.3), (-0.3, -0.7), 'rand', 'rand']
-    lag_params = [0, 0.5, -0.5, 2, 'rand']
+    extra = 0 if CTX.quick else 4
+    jac_params = [(-0.5, -0.5), (0.5, 0.5), (-0.5, 0.5), (0.5, -0.5), (0, 0), (0, 4), (0.3, -0.3), (-0.3, -0.7), 'rand', 'rand'] + ['rand'] * extra
+    lag_params = [0, 0.5, -0.5, 2, 'rand'] + ['rand'] * extra
 
     def jac(ab):
         a, b = ab
@@ -435,7 +440,7 @@ def realise(params, rng, name):
 
 
 def run_1d(ctx, counter):
-    nmax = ctx.pick(12, 40)
+    nmax = ctx.pick(12, 60)
     for name, plist, make, lo, hi, seq2d in families():
         for pi, params in enumerate(plist):
             for n in range(0, nmax + 1):
@@ -476,7 +481,7 @@ def order_lists(rng, nmax, quick):
 
 
 def run_seq(ctx, counter):
-    nmax = ctx.pick(12, 40)
+    nmax = ctx.pick(12, 60)
     for name, plist, make, lo, hi, seq2d in families():
         for pi, params in enumerate(plist):
             rng0 = case_rng('seq-lists', name, pi)
@@ -731,13 +736,16 @@ def q2d_structures(rng, quick):
 
 
 def q2d_len_label(label):
+    """mechanism class of a coefficient structure: its one hostile feature, else 'regular'."""
     if label == 'cm0-len1':
         return 'len1'
     if label.startswith('list-len1'):
         return 'list-len1'
     if label in ('sine-without-cosine', 'cosine-without-sine'):
         return 'empty-list'
-    return label
+    if label in ('dense-m1-long',):
+        return 'm=1:N>2'
+    return 'regular'
 
 
 def q2d_degree(cm0, ams, bms):
@@ -940,7 +948,7 @@ def run(ctx):
         run_surfaces(ctx, counter)
         run_q2d_and_der(ctx, counter)
         run_normals(ctx, counter)
-        ctx.note('orders', f'1-D families and Zernike: every order 0..{ctx.pick(12, 40)} (all valid m); Clenshaw sums: lengths 1..{ctx.pick(12, 30)}, j=1..{ctx.pick(4, 6)}')
+        ctx.note('orders', f'1-D families: every order 0..{ctx.pick(12, 60)}; Zernike: every (n, m) with n <= {ctx.pick(12, 40)}; Clenshaw sums: lengths 1..{ctx.pick(12, 30)}, j=1..{ctx.pick(4, 6)}')
     finally:
         detach_all()
 
